@@ -36,7 +36,7 @@ COPY_PREFIXES = ["SPDX-FileCopyrightText:", "SPDX-SnippetCopyrightText:", "SPDX-
                  "SPDX-FileCopyrightText: Copyright", "SPDX-FileCopyrightText: Copyright (C)", "SPDX-FileCopyrightText: Copyright ©",
                  "Copyright", "Copyright (C)", "Copyright (c)", "Copyright ©", "©"]
 FORMS = ["single", "inline-multi", "block-multi"]
-DECOS = ["none", "frame", "indent-spaces", "indent-tab", "trailing-blanks", "blanks-after-terminator", "own-terminator-twice", "foreign-terminators-ab", "foreign-terminators-ba"]
+DECOS = ["none", "frame", "frame-tab", "frame-glued", "indent-spaces", "indent-tab", "trailing-blanks", "blanks-after-terminator", "own-terminator-twice", "foreign-terminators-ab", "foreign-terminators-ba"]
 
 
 def styles():
@@ -80,12 +80,10 @@ def make_lines(cls, form, deco, body, kind):
             line = (lead + cls.INDENT_AFTER_MIDDLE + body) if lead else body
             pre, post = cls.MULTI_LINE.start + "\n", "\n" + cls.INDENT_BEFORE_END + cls.MULTI_LINE.end
     dec = lead.strip()
-    if deco == "frame":
+    if deco.startswith("frame"):
         if not dec or any(ch.isalnum() for ch in dec) or form == "inline-multi":
             return None
-        line = line + " " + dec[::-1]
-        if form == "inline-multi":
-            return None
+        line = line + {"frame": " ", "frame-tab": "\t", "frame-glued": ""}[deco] + dec[::-1]
     elif deco == "indent-spaces":
         line = "    " + line
     elif deco == "indent-tab":
@@ -187,7 +185,7 @@ def ev_A(c) -> R:
         value = want
         # a value that ends in the mirror image of a *punctuation* line prefix cannot be told from a frame: observed only.
         # (a prefix made of letters - Fortran 'c', 'dnl', 'REM' - is never a frame)
-        mirrored = bool(dec) and value.endswith(dec[::-1]) and deco != "frame" and not any(ch.isalnum() for ch in dec)
+        mirrored = bool(dec) and value.endswith(dec[::-1]) and not deco.startswith("frame") and not any(ch.isalnum() for ch in dec)
         unjudged = ends_in_terminator(value) or mirrored
         if unjudged:
             r.notes.append("observed-only: value ends in a terminator / mirrored prefix")
@@ -195,7 +193,7 @@ def ev_A(c) -> R:
         r.validated += 1
         if got != exp:
             bad += 1
-            if deco == "frame" and kind == "cop":
+            if deco.startswith("frame") and kind == "cop":
                 sig = "framed-copyright-line-keeps-frame"
             else:
                 sig = f"A|{kind}|{form}|{deco}|{c['style'] if bad <= 1 else c['style']}"
